@@ -131,7 +131,10 @@ func (enc *xmlWriter) ByteString(tag int, str []byte) {
 }
 
 func (enc *xmlWriter) DateTime(tag int, date time.Time) {
-	enc.encode(TypeDateTime, tag, date.Format(time.RFC3339))
+	// Always written in UTC: in another location the year may leave 0..9999 (which RFC 3339 cannot express)
+	// and historical zone offsets have seconds that the RFC 3339 offset drops, so the instant would not
+	// survive a round trip.
+	enc.encode(TypeDateTime, tag, date.UTC().Format(time.RFC3339))
 }
 
 func (enc *xmlWriter) Interval(tag int, interval time.Duration) {
@@ -399,12 +402,11 @@ func (dec *xmlReader) DateTime(tag int) (time.Time, error) {
 	if err != nil {
 		return time.Time{}, err
 	}
-	dt = dt.Local()
-	if y := dt.Year(); y < 0 || y > 9999 {
+	if y := dt.UTC().Year(); y < 0 || y > 9999 {
 		// Outside of what the writers can express in RFC 3339 (a zone offset moved it across the boundary)
 		return time.Time{}, Errorf("date-time is out of bound")
 	}
-	return dt, dec.Next()
+	return dt.Local(), dec.Next()
 }
 
 func (dec *xmlReader) Interval(tag int) (time.Duration, error) {
